@@ -1,9 +1,19 @@
 use std::path::PathBuf;
 use std::io::ErrorKind;
 use std::sync::Mutex;
+// (transparent: the variants can be named and matched)
+#[verifier::external_type_specification]
+pub struct ExErrorKind(std::io::ErrorKind);
 #[verifier::external_type_specification]
 #[verifier::external_body]
-pub struct ExErrorKind(std::io::ErrorKind);
+pub struct ExIoError(std::io::Error);
+pub uninterp spec fn io_kind(e: std::io::Error) -> std::io::ErrorKind;
+pub assume_specification[ std::io::Error::kind ](e: &std::io::Error) -> (k: std::io::ErrorKind)
+    ensures k == io_kind(*e);
+impl vstd::std_specs::convert::FromSpecImpl<std::io::Error> for Response {
+    open spec fn obeys_from_spec() -> bool { false }
+    uninterp spec fn from_spec(e: std::io::Error) -> Response;
+}
 #[verifier::external_type_specification]
 #[verifier::external_body]
 pub struct ExPathBuf(PathBuf);
